@@ -69,8 +69,6 @@ package xmpp
 //@   loop 1
 //@     invariant[C03] selected.Name == ""
 //@   loop 2
-//@     invariant[C01] forall k string :: visited1(k) && has(list.cache, k) && !has(s.negotiated, k) && negotiable(list.cache[k].feature, s.state) ==> list.cache[k].req && data.feature.Name.Local != ""
-//@     invariant[C01] data.feature.Name.Local != "" ==> data.req
 //@     invariant[C03] selected.Name == ""
 //@   loop 3
 //@     invariant[C03] !success
@@ -99,8 +97,6 @@ package xmpp
 //@   loop 1
 //@     invariant[C03] !more ==> stepOK
 //@   loop 2
-//@     invariant[C01] forall k string :: visited1(k) && has(list.cache, k) && !has(s.negotiated, k) && negotiable(list.cache[k].feature, s.state) ==> list.cache[k].req && data.feature.Name.Local != ""
-//@     invariant[C01] data.feature.Name.Local != "" ==> data.req
 //@     invariant[C03] selected.Name == "" || (selected.Name == selection.Name && (exists i int :: 0 <= i && i < len(mechanisms) && mechanisms[i].Name == selected.Name))
 
 // ---------------------------------------------------------------------------
@@ -308,13 +304,14 @@ package xmpp
 // Receiving side: the advertisement contains exactly the configured features
 // whose prerequisites hold; List is called for those and no others.
 //@ func writeStreamFeatures
+//@   noswallow[C01,C02,C04]
 //@   ensures[C01,C02,C04] unchanged(s.state) && unchanged(s.negotiated) && unchanged(s.features) && unchanged(s.in.d) && unchanged(features)
-//@   ensures[C01,C04] err == nil ==> list != nil && list.cache != nil
-//@   ensures[C01] err == nil ==> forall k string :: has(list.cache, k) ==> cached(list.cache[k], k, s.state) && (list.cache[k].req ==> list.req)
-//@   ensures[C01] err == nil ==> forall k string :: has(list.cache, k) ==> exists i int :: 0 <= i && i < len(features) && features[i] == list.cache[k].feature
-//@   ensures[C01] err == nil ==> forall i int :: 0 <= i && i < len(features) && prereq(s.state, features[i]) ==> has(list.cache, features[i].Name.Space)
+//@   ensures[C01,C02,C04] err == nil ==> list != nil && list.cache != nil
+//@   ensures[C01,C02,C04] err == nil ==> forall k string :: has(list.cache, k) ==> cached(list.cache[k], k, s.state) && (list.cache[k].req ==> list.req)
+//@   ensures[C01,C02,C04] err == nil ==> forall k string :: has(list.cache, k) ==> exists i int :: 0 <= i && i < len(features) && features[i] == list.cache[k].feature
+//@   ensures[C01,C02,C04] err == nil ==> forall i int :: 0 <= i && i < len(features) && prereq(s.state, features[i]) ==> has(list.cache, features[i].Name.Space)
 //@   callsite field:StreamFeature.List#1
-//@     assert[C01] prereq(s.state, self)
+//@     assert[C01,C02,C04] prereq(s.state, self)
 //@     preserves s.state, s.negotiated, s.features, s.in.d, list, list.cache, list.req, list.total, features
 //@   callsite (mellium.im/xmlstream.TokenWriteFlushCloser).EncodeToken#*
 //@     preserves s.state, s.negotiated, s.features, s.in.d, list, list.cache, list.req, list.total, features
@@ -324,25 +321,26 @@ package xmpp
 //@     preserves s.state, s.negotiated, s.features, s.in.d, list, list.cache, list.req, list.total, features
 //@   loop 1
 //@     invariant[C01,C02,C04] unchanged(s.state) && unchanged(s.negotiated) && unchanged(s.features) && unchanged(s.in.d) && unchanged(features)
-//@     invariant[C01,C04] list != nil && list.cache != nil
-//@     invariant[C01] forall k string :: has(list.cache, k) ==> cached(list.cache[k], k, s.state) && (list.cache[k].req ==> list.req)
-//@     invariant[C01] forall k string :: has(list.cache, k) ==> exists i int :: 0 <= i && i < len(features) && features[i] == list.cache[k].feature
-//@     invariant[C01] forall j int :: 0 <= j && j <= rangeindex && prereq(s.state, features[j]) ==> has(list.cache, features[j].Name.Space)
+//@     invariant[C01,C02,C04] list != nil && list.cache != nil
+//@     invariant[C01,C02,C04] forall k string :: has(list.cache, k) ==> cached(list.cache[k], k, s.state) && (list.cache[k].req ==> list.req)
+//@     invariant[C01,C02,C04] forall k string :: has(list.cache, k) ==> exists i int :: 0 <= i && i < len(features) && features[i] == list.cache[k].feature
+//@     invariant[C01,C02,C04] forall j int :: 0 <= j && j <= rangeindex && prereq(s.state, features[j]) ==> has(list.cache, features[j].Name.Space)
 
 //@ func getFeature
-//@   ensures[C01] ok ==> feature.Name == name && exists i int :: 0 <= i && i < len(features) && features[i] == feature
+//@   ensures[C01,C02,C04] ok ==> feature.Name == name && exists i int :: 0 <= i && i < len(features) && features[i] == feature
 
 // Initiating side: every cached entry is a configured feature of the cached
 // namespace whose prerequisites hold; a mandatory entry makes the list
 // mandatory; an empty advertisement has an empty cache.
 //@ func readStreamFeatures
+//@   noswallow[C01,C02,C04]
 //@   ensures[C01,C02,C04] unchanged(s.state) && unchanged(s.negotiated) && unchanged(s.in.d) && unchanged(features) && s.features == old(s.features)
-//@   ensures[C01,C04] result1 == nil ==> result0 != nil && result0.cache != nil && result0.total >= 0
-//@   ensures[C01] result1 == nil ==> forall k string :: has(result0.cache, k) ==> cached(result0.cache[k], k, s.state) && (result0.cache[k].req ==> result0.req) && result0.total > 0 && result0.cache[k].feature.Name.Local != ""
-//@   ensures[C01] result1 == nil ==> forall k string :: has(result0.cache, k) ==> exists i int :: 0 <= i && i < len(features) && features[i] == result0.cache[k].feature
+//@   ensures[C01,C02,C04] result1 == nil ==> result0 != nil && result0.cache != nil && result0.total >= 0
+//@   ensures[C01,C02,C04] result1 == nil ==> forall k string :: has(result0.cache, k) ==> cached(result0.cache[k], k, s.state) && (result0.cache[k].req ==> result0.req) && result0.total > 0 && result0.cache[k].feature.Name.Local != ""
+//@   ensures[C01,C02,C04] result1 == nil ==> forall k string :: has(result0.cache, k) ==> exists i int :: 0 <= i && i < len(features) && features[i] == result0.cache[k].feature
 //@   callsite (encoding/xml.TokenReader).Token#*
 //@     preserves s.state, s.negotiated, s.in.d, sf, sf.cache, sf.req, sf.total, features, s.features
-//@     assume[C01] typeof(ret0) == xml.StartElement ==> ret0.(xml.StartElement).Name.Local != ""
+//@     assume[C01,C02,C04] typeof(ret0) == xml.StartElement ==> ret0.(xml.StartElement).Name.Local != ""
 //@   callsite nextElementDecoder#*
 //@     preserves s.state, s.negotiated, s.in.d, sf, sf.cache, sf.req, sf.total, features, s.features
 //@   callsite field:StreamFeature.Parse#1
@@ -351,18 +349,18 @@ package xmpp
 //@     preserves s.state, s.negotiated, s.in.d, sf, sf.cache, sf.req, sf.total, features, s.features
 //@   loop 1
 //@     invariant[C01,C02,C04] unchanged(s.state) && unchanged(s.negotiated) && unchanged(s.in.d) && unchanged(features) && s.features == old(s.features)
-//@     invariant[C01,C04] sf != nil && sf.cache != nil && sf.total >= 0
-//@     invariant[C01] forall k string :: has(sf.cache, k) ==> cached(sf.cache[k], k, s.state) && (sf.cache[k].req ==> sf.req) && sf.total > 0 && sf.cache[k].feature.Name.Local != ""
-//@     invariant[C01] forall k string :: has(sf.cache, k) ==> exists i int :: 0 <= i && i < len(features) && features[i] == sf.cache[k].feature
+//@     invariant[C01,C02,C04] sf != nil && sf.cache != nil && sf.total >= 0
+//@     invariant[C01,C02,C04] forall k string :: has(sf.cache, k) ==> cached(sf.cache[k], k, s.state) && (sf.cache[k].req ==> sf.req) && sf.total > 0 && sf.cache[k].feature.Name.Local != ""
+//@     invariant[C01,C02,C04] forall k string :: has(sf.cache, k) ==> exists i int :: 0 <= i && i < len(features) && features[i] == sf.cache[k].feature
 
 //@ func prerequisitesHold
 //@   ensures result == prereq(state, feature)
 
 //@ func containsStartTLS
-//@   ensures[C01,C02] ok ==> startTLS.Name.Space == ns.StartTLS && exists i int :: 0 <= i && i < len(features) && features[i] == startTLS
-//@   ensures[C02] !ok ==> forall i int :: 0 <= i && i < len(features) ==> features[i].Name.Space != ns.StartTLS
+//@   ensures[C01,C02,C04] ok ==> startTLS.Name.Space == ns.StartTLS && exists i int :: 0 <= i && i < len(features) && features[i] == startTLS
+//@   ensures[C01,C02,C04] !ok ==> forall i int :: 0 <= i && i < len(features) ==> features[i].Name.Space != ns.StartTLS
 //@   loop 1
-//@     invariant[C02] forall j int :: 0 <= j && j <= rangeindex ==> features[j].Name.Space != ns.StartTLS
+//@     invariant[C01,C02,C04] forall j int :: 0 <= j && j <= rangeindex ==> features[j].Name.Space != ns.StartTLS
 
 //@ func (*Session).State
 //@   pure
@@ -370,8 +368,9 @@ package xmpp
 
 // One round of feature negotiation.
 //@ func negotiateFeatures
-//@   requires[C01] first ==> forall k string :: !has(s.negotiated, k)
-//@   requires[C01,C02] forall i int :: 0 <= i && i < len(features) ==> features[i].Name.Local != ""
+//@   noswallow[C01,C02,C04]
+//@   requires[C01,C02,C04] first ==> forall k string :: !has(s.negotiated, k)
+//@   requires[C01,C02,C04] forall i int :: 0 <= i && i < len(features) ==> features[i].Name.Local != ""
 //@   ghost stepErr bool = false
 //@   ghost steps int = 0
 //@   ghost okMask SessionState = 0
@@ -381,38 +380,38 @@ package xmpp
 //@   callsite decodeStreamErr#1
 //@     preserves s.state, s.negotiated, s.features, s.in.d, features
 //@   callsite field:StreamFeature.Negotiate#1
-//@     assert[C01] prereq(s.state, self)
-//@     assert[C01] self.Negotiate != nil
-//@     assert[C01] !has(s.negotiated, self.Name.Space)
-//@     assert[C01] (has(list.cache, self.Name.Space) && list.cache[self.Name.Space].feature == self) || (!server && first && s.state & Secure == 0 && self.Name.Space == ns.StartTLS)
-//@     assert[C01] exists i int :: 0 <= i && i < len(features) && features[i] == self
-//@     assert[C01] !server && !(doStartTLS && startTLS.Name.Space == ns.StartTLS) && data.req ==> forall k string :: has(list.cache, k) && !has(s.negotiated, k) && negotiable(list.cache[k].feature, s.state) ==> list.cache[k].req
-//@     assert[C04] !stepErr
+//@     assert[C01,C02,C04] prereq(s.state, self)
+//@     assert[C01,C02,C04] self.Negotiate != nil
+//@     assert[C01,C02,C04] !has(s.negotiated, self.Name.Space)
+//@     assert[C01,C02,C04] (has(list.cache, self.Name.Space) && list.cache[self.Name.Space].feature == self) || (!server && first && s.state & Secure == 0 && self.Name.Space == ns.StartTLS)
+//@     assert[C01,C02,C04] exists i int :: 0 <= i && i < len(features) && features[i] == self
+//@     assert[C01,C02,C04] !server && !(doStartTLS && startTLS.Name.Space == ns.StartTLS) && data.req ==> forall k string :: has(list.cache, k) && !has(s.negotiated, k) && negotiable(list.cache[k].feature, s.state) ==> list.cache[k].req
+//@     assert[C01,C02,C04] !stepErr
 //@     preserves list, list.cache, list.req, list.total, features
 //@     after: stepErr = ret2 != nil
 //@     after: steps = steps + 1
 //@     after: lastMask = ret0
 //@     after: okMask = okMask | ite(ret2 == nil, ret0, 0)
-//@   ensures[C01] s.state & old(s.state) == old(s.state)
+//@   ensures[C01,C02,C04] s.state & old(s.state) == old(s.state)
 //@   ensures[C01,C02,C04] s.negotiated == old(s.negotiated) && s.features == old(s.features)
-//@   ensures[C04] stepErr ==> err != nil
-//@   ensures[C01] err == nil && !server && mask & Ready != 0 && lastMask & Ready == 0 ==> forall k string :: has(list.cache, k) && !has(s.negotiated, k) && negotiable(list.cache[k].feature, s.state) ==> !list.cache[k].req
-//@   ensures[C01] err == nil && server && mask & Ready != 0 && lastMask & Ready == 0 ==> !list.req
-//@   ensures[C01,C04] s.state == old(s.state) | okMask
+//@   ensures[C01,C02,C04] stepErr ==> err != nil
+//@   ensures[C01,C02,C04] err == nil && !server && mask & Ready != 0 && lastMask & Ready == 0 ==> forall k string :: has(list.cache, k) && !has(s.negotiated, k) && negotiable(list.cache[k].feature, s.state) ==> !list.cache[k].req
+//@   ensures[C01,C02,C04] err == nil && server && mask & Ready != 0 && lastMask & Ready == 0 ==> !list.req
+//@   ensures[C01,C02,C04] s.state == old(s.state) | okMask
 //@   loop 1
 //@     invariant[C01,C02,C04] list != nil && list.cache != nil
-//@     invariant[C01] s.state & old(s.state) == old(s.state)
+//@     invariant[C01,C02,C04] s.state & old(s.state) == old(s.state)
 //@     invariant[C01,C02,C04] unchanged(s.in.d) && s.negotiated == old(s.negotiated) && s.features == old(s.features)
-//@     invariant[C01] forall k string :: has(list.cache, k) ==> list.cache[k].feature.Name.Space == k && (list.cache[k].req ==> list.req)
-//@     invariant[C01] forall k string :: has(list.cache, k) ==> exists i int :: 0 <= i && i < len(features) && features[i] == list.cache[k].feature
-//@     invariant[C01] !server ==> forall k string :: has(list.cache, k) ==> list.cache[k].feature.Name.Local != ""
-//@     invariant[C01] !server && doStartTLS ==> first && steps == 0 && startTLS.Name.Space == ns.StartTLS && s.state & Secure == 0 && prereq(s.state, startTLS) && startTLS.Negotiate != nil && !has(s.negotiated, ns.StartTLS) && exists i int :: 0 <= i && i < len(features) && features[i] == startTLS
-//@     invariant[C04] !stepErr
-//@     invariant[C01,C04] s.state == old(s.state) | okMask
+//@     invariant[C01,C02,C04] forall k string :: has(list.cache, k) ==> list.cache[k].feature.Name.Space == k && (list.cache[k].req ==> list.req)
+//@     invariant[C01,C02,C04] forall k string :: has(list.cache, k) ==> exists i int :: 0 <= i && i < len(features) && features[i] == list.cache[k].feature
+//@     invariant[C01,C02,C04] !server ==> forall k string :: has(list.cache, k) ==> list.cache[k].feature.Name.Local != ""
+//@     invariant[C01,C02,C04] !server && doStartTLS ==> first && steps == 0 && startTLS.Name.Space == ns.StartTLS && s.state & Secure == 0 && prereq(s.state, startTLS) && startTLS.Negotiate != nil && !has(s.negotiated, ns.StartTLS) && exists i int :: 0 <= i && i < len(features) && features[i] == startTLS
+//@     invariant[C01,C02,C04] !stepErr
+//@     invariant[C01,C02,C04] s.state == old(s.state) | okMask
 //@   loop 2
-//@     invariant[C01] forall k string :: visited1(k) && has(list.cache, k) && !has(s.negotiated, k) && negotiable(list.cache[k].feature, s.state) ==> list.cache[k].req && data.feature.Name.Local != ""
-//@     invariant[C01] data.feature.Name.Local != "" ==> data.req
-//@     invariant[C01] data.feature.Name.Local != "" ==> has(list.cache, data.feature.Name.Space) && list.cache[data.feature.Name.Space] == data && !has(s.negotiated, data.feature.Name.Space) && data.feature.Negotiate != nil && prereq(s.state, data.feature)
+//@     invariant[C01,C02,C04] forall k string :: visited1(k) && has(list.cache, k) && !has(s.negotiated, k) && negotiable(list.cache[k].feature, s.state) ==> list.cache[k].req && data.feature.Name.Local != ""
+//@     invariant[C01,C02,C04] data.feature.Name.Local != "" ==> data.req
+//@     invariant[C01,C02,C04] data.feature.Name.Local != "" ==> has(list.cache, data.feature.Name.Space) && list.cache[data.feature.Name.Space] == data && !has(s.negotiated, data.feature.Name.Space) && data.feature.Negotiate != nil && prereq(s.state, data.feature)
 
 // sawFeatures: the negotiator state carried between calls says that a
 // features list has already been negotiated on this session.
@@ -421,14 +420,15 @@ package xmpp
 // Contract of negotiators as negotiateSession uses them (assumed for
 // user-supplied negotiators, proved for the default negotiator below).
 //@ functype Negotiator
-//@   requires[C01] !sawFeatures(data) ==> forall k string :: !has(session.negotiated, k)
-//@   ensures[C01] session.state & old(session.state) == old(session.state)
+//@   requires[C01,C02,C04] !sawFeatures(data) ==> forall k string :: !has(session.negotiated, k)
+//@   ensures[C01,C02,C04] session.state & old(session.state) == old(session.state)
 //@   ensures[C01,C02,C04] session.negotiated == old(session.negotiated) && session.features == old(session.features)
-//@   ensures[C01] !sawFeatures(cache) ==> unchanged(session.negotiated) && !old(sawFeatures(data))
+//@   ensures[C01,C02,C04] !sawFeatures(cache) ==> unchanged(session.negotiated) && !old(sawFeatures(data))
 
 // The default negotiator.
 //@ func negotiator$1
-//@   requires[C01] !sawFeatures(data) ==> forall k string :: !has(s.negotiated, k)
+//@   noswallow[C01,C02,C04]
+//@   requires[C01,C02,C04] !sawFeatures(data) ==> forall k string :: !has(s.negotiated, k)
 //@   ghost called bool = false
 //@   ghost sent bool = false
 //@   ghost restart bool = false
@@ -443,18 +443,18 @@ package xmpp
 //@     preserves s.state, s.negotiated, s.features
 //@   callsite <dynamic>#1
 //@     preserves s.state, s.negotiated, s.features
-//@     assume[C01,C02] forall i int :: 0 <= i && i < len(ret0.Features) ==> ret0.Features[i].Name.Local != ""
+//@     assume[C01,C02,C04] forall i int :: 0 <= i && i < len(ret0.Features) ==> ret0.Features[i].Name.Local != ""
 //@   callsite negotiateFeatures#1
-//@     assert[C01,C02] arg2 == !sawFeatures(data)
-//@     assert[C01] (typeof(data) != negotiatorState || data.(negotiatorState).doRestart) ==> sent
+//@     assert[C01,C02,C04] arg2 == !sawFeatures(data)
+//@     assert[C01,C02,C04] (typeof(data) != negotiatorState || data.(negotiatorState).doRestart) ==> sent
 //@     after: called = true
 //@     after: restart = ret1 != nil
-//@   ensures[C01,C02] called ==> sawFeatures(restartNext)
-//@   ensures[C01,C02] !called ==> sawFeatures(restartNext) == sawFeatures(data)
-//@   ensures[C01] called && err == nil ==> typeof(restartNext) == negotiatorState && restartNext.(negotiatorState).doRestart == restart
-//@   ensures[C01] s.state & old(s.state) == old(s.state)
+//@   ensures[C01,C02,C04] called ==> sawFeatures(restartNext)
+//@   ensures[C01,C02,C04] !called ==> sawFeatures(restartNext) == sawFeatures(data)
+//@   ensures[C01,C02,C04] called && err == nil ==> typeof(restartNext) == negotiatorState && restartNext.(negotiatorState).doRestart == restart
+//@   ensures[C01,C02,C04] s.state & old(s.state) == old(s.state)
 //@   ensures[C01,C02,C04] s.negotiated == old(s.negotiated) && s.features == old(s.features)
-//@   ensures[C01] !sawFeatures(restartNext) ==> unchanged(s.negotiated) && !old(sawFeatures(data))
+//@   ensures[C01,C02,C04] !sawFeatures(restartNext) ==> unchanged(s.negotiated) && !old(sawFeatures(data))
 
 // negotiateSession: the negotiator is called until the ready bit is set; the
 // first negotiator error ends negotiation; state bits are only added; after a
@@ -467,33 +467,33 @@ package xmpp
 //@   callsite foreign#*
 //@     preserves s.state, s.negotiated, s.features, s
 //@   callsite type:Negotiator#1
-//@     assert[C01] !sawFeatures(arg4) ==> forall k string :: !has(s.negotiated, k)
-//@     assert[C01,C02] first ==> arg4 == nil
-//@     assert[C01,C02] !first ==> arg4 == lastData
+//@     assert[C01,C02,C04] !sawFeatures(arg4) ==> forall k string :: !has(s.negotiated, k)
+//@     assert[C01,C02,C04] first ==> arg4 == nil
+//@     assert[C01,C02,C04] !first ==> arg4 == lastData
 //@     after: negErr = ret3 != nil
 //@     after: lastData = ret2
 //@     after: first = false
 //@   callsite newConn#2
-//@     assert[C02] arg0 == rw && rw != nil
+//@     assert[C01,C02,C04] arg0 == rw && rw != nil
 //@     preserves s.state, s.negotiated, s.features
 //@   callsite encoding/xml.NewDecoder#2
-//@     assert[C02] arg0 == s.conn
+//@     assert[C01,C02,C04] arg0 == s.conn
 //@   callsite encoding/xml.NewEncoder#2
-//@     assert[C02] arg0 == s.conn
-//@   ensures[C04] negErr ==> result1 != nil
-//@   ensures[C01,C04] result1 == nil ==> result0 != nil && result0.state & Ready != 0
-//@   ensures[C01] result0 != nil ==> result0.state & state == state
+//@     assert[C01,C02,C04] arg0 == s.conn
+//@   ensures[C01,C02,C04] negErr ==> result1 != nil
+//@   ensures[C01,C02,C04] result1 == nil ==> result0 != nil && result0.state & Ready != 0
+//@   ensures[C01,C02,C04] result0 != nil ==> result0.state & state == state
 //@   loop 1
-//@     invariant[C01,C04] !negErr && s.state & state == state && s.features != nil && s.negotiated != nil
-//@     invariant[C01,C02] first ==> data == nil
-//@     invariant[C01] !sawFeatures(data) ==> forall k string :: !has(s.negotiated, k)
-//@     invariant[C01,C02] !first ==> data == lastData
-//@     invariant[C01] !first && rw != nil ==> forall k string :: !has(s.negotiated, k)
+//@     invariant[C01,C02,C04] !negErr && s.state & state == state && s.features != nil && s.negotiated != nil
+//@     invariant[C01,C02,C04] first ==> data == nil
+//@     invariant[C01,C02,C04] !sawFeatures(data) ==> forall k string :: !has(s.negotiated, k)
+//@     invariant[C01,C02,C04] !first ==> data == lastData
+//@     invariant[C01,C02,C04] !first && rw != nil ==> forall k string :: !has(s.negotiated, k)
 //@   loop 2
-//@     invariant[C01,C04] s.state & state == state && s.features != nil && s.negotiated != nil
+//@     invariant[C01,C02,C04] s.state & state == state && s.features != nil && s.negotiated != nil
 //@   loop 3
-//@     invariant[C01,C04] s.state & state == state && s.features != nil && s.negotiated != nil
-//@     invariant[C01] forall k string :: visited2(k) ==> !has(s.negotiated, k)
+//@     invariant[C01,C02,C04] s.state & state == state && s.features != nil && s.negotiated != nil
+//@     invariant[C01,C02,C04] forall k string :: visited2(k) ==> !has(s.negotiated, k)
 
 // STARTTLS (C02, C04): the feature value is stateless (the captured
 // configuration is never written), a default configuration names this
@@ -501,6 +501,7 @@ package xmpp
 // a failed write of the request is reported, and the negotiation bookkeeping
 // of the session is left alone (the frame assumed of all features).
 //@ func StartTLS$3
+//@   noswallow[C01,C02,C04]
 //@   ghost la jid.JID
 //@   ghost dom jid.JID
 //@   ghost want string
@@ -514,29 +515,39 @@ package xmpp
 //@   callsite (*Session).State#1
 //@     after: st0 = ret0
 //@   callsite (*Session).LocalAddr#1
-//@     assert[C02] arg0 == session
+//@     assert[C01,C02,C04] arg0 == session
 //@     after: la = ret0
 //@   callsite (mellium.im/xmpp/jid.JID).Domain#1
-//@     assert[C02] arg0 == la
+//@     assert[C01,C02,C04] arg0 == la
 //@     after: dom = ret0
 //@   callsite (mellium.im/xmpp/jid.JID).String#1
-//@     assert[C02] arg0 == dom
+//@     assert[C01,C02,C04] arg0 == dom
 //@     after: want = ret0
 //@   callsite fmt.Fprint#*
 //@     preserves session.state, session.negotiated, session.features, session.in.d, cfg
 //@     after: werr = werr || ret1 != nil
 //@   callsite (*encoding/xml.Decoder).Skip#1
 //@     preserves session.state, session.negotiated, session.features, session.in.d, cfg
-//@     assert[C02] tok.Name.Space == ns.StartTLS && tok.Name.Local == "proceed"
+//@     assert[C01,C02,C04] tok.Name.Space == ns.StartTLS && tok.Name.Local == "proceed"
 //@     after: proceed = ret0 == nil
 //@   callsite crypto/tls.Client#1
-//@     assert[C02] arg1 != nil && (old(cfg) == nil ==> arg1.ServerName == want)
-//@     assert[C02] old(cfg) != nil ==> arg1 == old(cfg)
+//@     assert[C01,C02,C04] arg1 != nil && (old(cfg) == nil ==> arg1.ServerName == want)
+//@     assert[C01,C02,C04] old(cfg) != nil ==> arg1 == old(cfg)
 //@   callsite crypto/tls.Server#1
-//@     assert[C02] arg1 != nil && (old(cfg) == nil ==> arg1.ServerName == want)
-//@   ensures[C02] cfg == old(cfg)
-//@   ensures[C02] result0 & Secure != 0 ==> result2 == nil && result1 != nil
-//@   ensures[C02] result0 != 0 && st0 & Received == 0 ==> proceed
-//@   ensures[C02,C04] result2 != nil ==> result0 == 0 && result1 == nil
-//@   ensures[C04] werr ==> result2 != nil
+//@     assert[C01,C02,C04] arg1 != nil && (old(cfg) == nil ==> arg1.ServerName == want)
+//@   ensures[C01,C02,C04] cfg == old(cfg)
+//@   ensures[C01,C02,C04] result0 & Secure != 0 ==> result2 == nil && result1 != nil
+//@   ensures[C01,C02,C04] result0 != 0 && st0 & Received == 0 ==> proceed
+//@   ensures[C01,C02,C04] result2 != nil ==> result0 == 0 && result1 == nil
+//@   ensures[C01,C02,C04] werr ==> result2 != nil
 //@   ensures[C01,C02,C04] unchanged(session.state) && unchanged(session.negotiated) && unchanged(session.features) && unchanged(session.in.d)
+
+// Prerequisite masks of the built-in features (C02: nothing but STARTTLS is
+// negotiable on a stream that is not secure; C01: order of the handshake).
+//@ func StartTLS
+//@   ensures[C01,C02,C04] result.Necessary == 0 && result.Prohibited == Secure && result.Name.Space == ns.StartTLS && result.Name.Local == "starttls" && result.Negotiate != nil
+//@ func newSASL
+//@   maypanic
+//@   ensures[C01,C02,C04] result.Necessary == Secure && result.Prohibited == Authn && result.Negotiate != nil
+//@ func bind
+//@   ensures[C01,C02,C04] result.Necessary == Authn && result.Prohibited == Ready && result.Negotiate != nil
